@@ -1300,7 +1300,7 @@ fn gvar_part(rng: &mut Rng, st: &mut Stats, cw: &mut CaseWriter, thorough: bool)
         let axis_count = 2usize;
         let mut glyphs = vec![];
         let mut r2 = rng.clone();
-        for _ in 0..(if thorough { 90 } else { 45 }) {
+        for _ in 0..(if thorough { 160 } else { 120 }) {
             let mut g = random_glyph(&mut r2, axis_count, true);
             // make it heavy: random large deltas, all required
             for t in g.tuples.iter_mut() {
@@ -1356,10 +1356,325 @@ fn main() {
     println!("cases={} shards={} oracle_failures={}", cw.len(), shards, st.oracle_failures.len());
 }
 
-/// drawing through skrifa (oracle only)
+/// drawing through skrifa (oracle only): a FontBuilder-assembled variable TrueType font is drawn unscaled and
+/// unhinted at many normalized locations; every outline point must equal the default point plus the
+/// region-weighted sum of the (stored or inferred) deltas, up to the scaler's final rounding to integers.
 mod c10_draw {
     use super::*;
-    pub fn draw_part(_rng: &mut Rng, st: &mut Stats, _thorough: bool) {
-        st.count("draw.not_run");
+    use read_fonts::tables::glyf::CurvePoint;
+    use skrifa::instance::{LocationRef, Size};
+    use skrifa::outline::{DrawSettings, OutlinePen};
+    use skrifa::MetadataProvider;
+    use write_fonts::tables::glyf::{Bbox, Contour, GlyfLocaBuilder, SimpleGlyph};
+    use write_fonts::tables::{fvar, head, hhea, hmtx, maxp};
+    use write_fonts::types::{Fixed, NameId, Tag};
+    use write_fonts::FontBuilder;
+
+    #[derive(Default)]
+    struct Pts(Vec<(f32, f32)>, usize);
+    impl OutlinePen for Pts {
+        fn move_to(&mut self, x: f32, y: f32) {
+            self.0.push((x, y));
+        }
+        fn line_to(&mut self, x: f32, y: f32) {
+            self.0.push((x, y));
+        }
+        fn quad_to(&mut self, _: f32, _: f32, x: f32, y: f32) {
+            self.1 += 1;
+            self.0.push((x, y));
+        }
+        fn curve_to(&mut self, _: f32, _: f32, _: f32, _: f32, x: f32, y: f32) {
+            self.1 += 1;
+            self.0.push((x, y));
+        }
+        fn close(&mut self) {}
+    }
+
+    fn build_font(glyphs: &[GlyphIn], axis_count: usize) -> Result<Vec<u8>, String> {
+        let gvar_bytes = match build_gvar(glyphs, axis_count as u16) {
+            Ok(Ok(b)) => b,
+            other => return Err(format!("gvar: {:?}", other.map(|r| r.map(|b| b.len())))),
+        };
+        let glyphs = glyphs.to_vec();
+        catch(move || -> Result<Vec<u8>, String> {
+            let mut gb = GlyfLocaBuilder::new();
+            let mut metrics = vec![];
+            for g in &glyphs {
+                let npts = g.coords.len() - 4;
+                let mut contours = vec![];
+                let mut start = 0;
+                for &e in &g.ends {
+                    if e >= npts {
+                        break;
+                    }
+                    let c: Vec<CurvePoint> = g.coords[start..=e].iter().map(|p| CurvePoint::on_curve(p.0 as i16, p.1 as i16)).collect();
+                    contours.push(Contour::from(c));
+                    start = e + 1;
+                }
+                let xs = g.coords[..npts].iter().map(|p| p.0 as i16);
+                let ys = g.coords[..npts].iter().map(|p| p.1 as i16);
+                let bbox = Bbox { x_min: xs.clone().min().unwrap_or(0), x_max: xs.max().unwrap_or(0), y_min: ys.clone().min().unwrap_or(0), y_max: ys.max().unwrap_or(0) };
+                metrics.push(hmtx::LongMetric::new(g.coords[npts + 1].0 as u16, bbox.x_min));
+                gb.add_glyph(&SimpleGlyph { bbox, contours, instructions: vec![] }).map_err(|e| format!("{e}"))?;
+            }
+            let (glyf, loca, fmt) = gb.build();
+            let mut hd = head::Head::default();
+            hd.units_per_em = 1000;
+            hd.magic_number = 0x5F0F3CF5;
+            hd.index_to_loc_format = match fmt {
+                write_fonts::tables::loca::LocaFormat::Short => 0,
+                write_fonts::tables::loca::LocaFormat::Long => 1,
+            };
+            let mut mx = maxp::Maxp::new(glyphs.len() as u16);
+            mx.max_points = Some(400);
+            mx.max_contours = Some(40);
+            mx.max_composite_points = Some(0);
+            mx.max_composite_contours = Some(0);
+            mx.max_zones = Some(1);
+            mx.max_twilight_points = Some(0);
+            mx.max_storage = Some(0);
+            mx.max_function_defs = Some(0);
+            mx.max_instruction_defs = Some(0);
+            mx.max_stack_elements = Some(0);
+            mx.max_size_of_instructions = Some(0);
+            mx.max_component_elements = Some(0);
+            mx.max_component_depth = Some(0);
+            let mut hh = hhea::Hhea::default();
+            hh.number_of_h_metrics = glyphs.len() as u16;
+            let hm = hmtx::Hmtx::new(metrics, vec![]);
+            let axes: Vec<fvar::VariationAxisRecord> = (0..axis_count)
+                .map(|i| fvar::VariationAxisRecord::new(Tag::new(&[b'a', b'x', b'0' + i as u8, b' ']), Fixed::from_f64(-100.0), Fixed::from_f64(0.0), Fixed::from_f64(100.0), 0, NameId::new(256 + i as u16)))
+                .collect();
+            let fv = fvar::Fvar::new(fvar::AxisInstanceArrays::new(axes, vec![]));
+            let mut fb = FontBuilder::new();
+            fb.add_table(&hd).map_err(|e| format!("{e}"))?;
+            fb.add_table(&mx).map_err(|e| format!("{e}"))?;
+            fb.add_table(&hh).map_err(|e| format!("{e}"))?;
+            fb.add_table(&hm).map_err(|e| format!("{e}"))?;
+            fb.add_table(&glyf).map_err(|e| format!("{e}"))?;
+            fb.add_table(&loca).map_err(|e| format!("{e}"))?;
+            fb.add_table(&fv).map_err(|e| format!("{e}"))?;
+            fb.add_raw(Tag::new(b"gvar"), gvar_bytes);
+            Ok(fb.build())
+        })
+        .and_then(|r| r)
+    }
+
+    /// the specification's tent scalar of one tuple at a location (F2Dot14 bits), exactly; None = not applicable
+    fn tent_scalar(tents: &[(i16, Option<(i16, i16)>)], loc: &[i16]) -> Option<Fr> {
+        let mut s = Fr::int(1);
+        for (i, (peak, im)) in tents.iter().enumerate() {
+            let (p, c) = (*peak as i128, loc[i] as i128);
+            if p == 0 || c == p {
+                continue;
+            }
+            if c == 0 {
+                return None;
+            }
+            let (lo, hi) = match im {
+                Some((a, b)) => (*a as i128, *b as i128),
+                None => (p.min(0), p.max(0)),
+            };
+            if im.is_some() {
+                if c <= lo || c >= hi {
+                    return None;
+                }
+                s = s.mul(if c < p { Fr::new(c - lo, p - lo) } else { Fr::new(hi - c, hi - p) });
+            } else {
+                if c < lo || c > hi {
+                    return None;
+                }
+                s = s.mul(Fr::new(c, p));
+            }
+        }
+        (s.0 != 0).then_some(s)
+    }
+
+    fn to_f64(f: Fr) -> f64 {
+        f.0 as f64 / f.1 as f64
+    }
+
+    pub const FINDING_1: &str = "F-C10-1:all-optional-tuple-written-as-all-points-without-data";
+
+    /// deterministic minimal input of finding F-C10-1, and its control (tuple A left out)
+    fn finding_1_repro(st: &mut Stats) {
+        let coords = vec![(0i64, 0i64), (100, 0), (50, 80), (0, 0), (500, 0), (0, 0), (0, 0)];
+        let ends = vec![2usize, 3, 4, 5, 6];
+        let a = TupleIn { tents: vec![(16384, None)], raw: vec![(0, 0); 7], deltas: vec![GlyphDelta::optional(0, 0); 7], tol: (1, 2) };
+        let mut bd = vec![GlyphDelta::required(10, 20); 3];
+        bd.extend(vec![GlyphDelta::required(0, 0); 4]);
+        let mut braw = vec![(10i64, 20i64); 3];
+        braw.extend(vec![(0, 0); 4]);
+        let b = TupleIn { tents: vec![(16384, None)], raw: braw, deltas: bd, tol: (1, 2) };
+        for (name, tuples) in [("control", vec![b.clone()]), ("with-all-optional-tuple", vec![a, b.clone()])] {
+            st.evaluations += 1;
+            let g = GlyphIn { coords: coords.clone(), ends: ends.clone(), tuples };
+            let Ok(bytes) = build_font(&[g], 1) else {
+                st.oracle_failure(json!({"key": format!("draw:repro-{}", name), "what": "cannot build"}));
+                continue;
+            };
+            let font = skrifa::FontRef::new(&bytes).unwrap();
+            let glyph = font.outline_glyphs().get(GlyphId::new(0)).unwrap();
+            let mut pen = Pts::default();
+            let loc = [F2Dot14::from_bits(16384)];
+            let r = glyph.draw(DrawSettings::unhinted(Size::unscaled(), LocationRef::new(&loc)), &mut pen);
+            let want = vec![(10.0f32, 20.0f32), (110.0, 20.0), (60.0, 100.0)];
+            st.count(&format!("draw.repro_{}_{}", name, if pen.0 == want { "ok" } else { "wrong" }));
+            if r.is_err() || pen.0 != want {
+                st.oracle_failure(json!({
+                    "key": if name == "control" { "draw:repro-control".to_string() } else { FINDING_1.to_string() },
+                    "what": "triangle (0,0),(100,0),(50,80); tuple A peak 1.0 = 7 x optional(0,0); tuple B peak 1.0 = required (10,20) x3 + required (0,0) x4; drawn unscaled at [1.0]",
+                    "expected": format!("{:?}", want), "drawn": format!("{:?}", pen.0),
+                }));
+            }
+        }
+    }
+
+    pub fn draw_part(rng: &mut Rng, st: &mut Stats, thorough: bool) {
+        finding_1_repro(st);
+        let nfonts = if thorough { 600 } else { 120 };
+        for fi in 0..nfonts {
+            let axis_count = rng.range(1, 2) as usize;
+            let nglyphs = rng.range(1, 3) as usize;
+            let mut glyphs: Vec<GlyphIn> = vec![];
+            while glyphs.len() < nglyphs {
+                let g = random_glyph(rng, axis_count, false);
+                // contours of at least 3 points, coordinates and moved points inside i16
+                let mut start = 0;
+                let mut ok = true;
+                for &e in &g.ends[..g.ends.len() - 4] {
+                    if e + 1 - start < 3 {
+                        ok = false;
+                    }
+                    start = e + 1;
+                }
+                if ok {
+                    glyphs.push(g);
+                }
+            }
+            let key = format!("draw:seed-font-{}", fi);
+            st.evaluations += 1;
+            st.count("draw.fonts");
+            let bytes = match build_font(&glyphs, axis_count) {
+                Ok(b) => b,
+                Err(e) => {
+                    st.count("draw.font_build_failed");
+                    st.oracle_failure(json!({"key": key, "what": "cannot assemble the variable font", "err": e}));
+                    continue;
+                }
+            };
+            let Ok(font) = skrifa::FontRef::new(&bytes) else {
+                st.oracle_failure(json!({"key": key, "what": "assembled font does not parse"}));
+                continue;
+            };
+            let og = font.outline_glyphs();
+            // locations: per axis from {0, peaks, starts, ends, midpoints, +-1, random}
+            let mut cand: Vec<Vec<i16>> = vec![vec![0, 16384, -16384, 8192, -8192, 1, -1]; axis_count];
+            for g in &glyphs {
+                for t in &g.tuples {
+                    for (i, (p, im)) in t.tents.iter().enumerate() {
+                        cand[i].push(*p);
+                        if let Some((a, b)) = im {
+                            cand[i].extend([*a, *b, ((*a as i32 + *p as i32) / 2) as i16, ((*b as i32 + *p as i32) / 2) as i16]);
+                        } else {
+                            cand[i].push(p / 2);
+                            cand[i].push(p / 3);
+                        }
+                    }
+                }
+            }
+            let nloc = if thorough { 40 } else { 24 };
+            for li in 0..nloc {
+                let loc: Vec<i16> = (0..axis_count).map(|i| if rng.chance(1, 6) { rng.range(-16384, 16384) as i16 } else { *rng.pick(&cand[i]) }).collect();
+                let locf: Vec<F2Dot14> = loc.iter().map(|b| F2Dot14::from_bits(*b)).collect();
+                for (gi, g) in glyphs.iter().enumerate() {
+                    st.evaluations += 1;
+                    st.count("draw.draws");
+                    let Some(glyph) = og.get(GlyphId::new(gi as u32)) else {
+                        st.oracle_failure(json!({"key": key, "glyph": gi, "what": "outline glyph missing"}));
+                        continue;
+                    };
+                    let mut pen = Pts::default();
+                    let res = catch(std::panic::AssertUnwindSafe(|| {
+                        glyph.draw(DrawSettings::unhinted(Size::unscaled(), LocationRef::new(&locf)), &mut pen).map(|_| ()).map_err(|e| format!("{e}"))
+                    }));
+                    match res {
+                        Ok(Ok(())) => {}
+                        other => {
+                            st.oracle_failure(json!({"key": key, "glyph": gi, "loc": loc, "what": "draw failed", "res": format!("{:?}", other)}));
+                            continue;
+                        }
+                    }
+                    // exact reference
+                    let n = g.coords.len();
+                    let npts = n - 4;
+                    let mut sum: Vec<(Fr, Fr)> = vec![(Fr::int(0), Fr::int(0)); n];
+                    let mut active = 0;
+                    for t in &g.tuples {
+                        let Some(s) = tent_scalar(&t.tents, &loc) else { continue };
+                        active += 1;
+                        let retained: Vec<Option<(i64, i64)>> = t.deltas.iter().map(|d| d.required.then_some((d.x as i64, d.y as i64))).collect();
+                        // what the compiled table means: all-required tuples are stored densely; otherwise the
+                        // writer may still store everything (dense smaller) — stored values equal the inputs either way,
+                        // and for omitted points the meaning is the inference from the retained ones
+                        let inf = infer_all(&g.coords, &retained, &g.ends);
+                        let dense = t.deltas.iter().all(|d| d.required);
+                        for i in 0..n {
+                            let d = if dense || t.deltas[i].required { (Fr::int(t.deltas[i].x as i128), Fr::int(t.deltas[i].y as i128)) } else { inf[i] };
+                            sum[i] = (sum[i].0.add(s.mul(d.0)), sum[i].1.add(s.mul(d.1)));
+                        }
+                    }
+                    if active > 0 {
+                        st.count("draw.draws_with_active_tuples");
+                    }
+                    if pen.0.len() != npts || pen.1 != 0 {
+                        st.count("draw.unexpected_path_shape");
+                        st.oracle_failure(json!({"key": key, "glyph": gi, "loc": loc, "what": "path has unexpected shape", "points": pen.0.len(), "expected": npts}));
+                        continue;
+                    }
+                    // dense-or-sparse ambiguity: when the writer stores a tuple densely although some deltas are optional,
+                    // the optional points carry their own (rounded) input delta instead of the inferred one; both are
+                    // within the tolerance of the wanted delta, so allow |tol| * scalar slack per such tuple.
+                    let mut slack = 0.5 + 0.02;
+                    for t in &g.tuples {
+                        if let Some(s) = tent_scalar(&t.tents, &loc) {
+                            if !t.deltas.iter().all(|d| d.required) {
+                                slack += to_f64(s).abs() * (t.tol.0 as f64 / t.tol.1 as f64);
+                            }
+                        }
+                    }
+                    for i in 0..npts {
+                        let ex = g.coords[i].0 as f64 + to_f64(sum[i].0);
+                        let ey = g.coords[i].1 as f64 + to_f64(sum[i].1);
+                        let (dx, dy) = (pen.0[i].0 as f64 - ex, pen.0[i].1 as f64 - ey);
+                        if dx.abs() > slack || dy.abs() > slack {
+                            // finding F-C10-1: an active tuple none of whose deltas is required is written as
+                            // "all points" without delta data; skrifa then drops every delta of the glyph
+                            let f1 = g.tuples.iter().any(|t| t.deltas.iter().all(|d| !d.required))
+                                && pen.0.iter().zip(&g.coords).all(|(a, b)| (a.0 as f64, a.1 as f64) == (b.0 as f64, b.1 as f64));
+                            let fkey = if f1 { FINDING_1.to_string() } else { format!("{}:glyph{}:loc{:?}", key, gi, loc) };
+                            if f1 {
+                                // keep the (capped) failure list free for anything new
+                                st.count("draw.finding_1_random_hits");
+                                if st.counters["draw.finding_1_random_hits"] > 2 {
+                                    break;
+                                }
+                            }
+                            st.oracle_failure(json!({
+                                "key": fkey,
+                                "font": key, "glyph": gi, "loc": loc, "point": i,
+                                "what": "drawn point differs from default + sum(scalar * delta) by more than the final rounding",
+                                "drawn": [pen.0[i].0, pen.0[i].1], "expected": [ex, ey], "default": [g.coords[i].0, g.coords[i].1],
+                                "tuples": g.tuples.iter().map(|t| json!({"tents": format!("{:?}", t.tents), "all_zero": t.raw.iter().all(|d| *d == (0, 0)), "required": t.deltas.iter().filter(|d| d.required).count()})).collect::<Vec<_>>(),
+                            }));
+                            break;
+                        }
+                    }
+                    if li == 0 && gi == 0 {
+                        st.nontrivial(&format!("{}:{:?}", key, loc));
+                    }
+                }
+            }
+        }
     }
 }
